@@ -1,5 +1,5 @@
 /-
-Tie 2 (facts): the numeric literals and comparison/boolean operators of the Go functions below, REGENERATED from /repo on
+Tie 2 (facts): the set of numeric literals and the multiset of comparison/boolean operators of the Go functions below, REGENERATED from /repo on
 every run (Gen/Facts.lean), are the ones the hand-written model was written against (C06 C14: zoom switches 31/34, the midpoint parameter 0.5, the threshold comparisons).
 A changed constant, a flipped or dropped comparison in one of these functions breaks the `decide` below even where no sampled
 input shows it; renaming and reordering of statements do not.
@@ -15,7 +15,7 @@ theorem facts_shape_GetExtendedSpatialIdsOnLine :
 
 /-- literals and comparisons of `shape.middleSpatialIds` -/
 theorem facts_shape_middleSpatialIds :
-    Gen.funcFacts.lookup "shape.middleSpatialIds" = some ["f:4602678819172646912", "i:0", "i:0", "i:1", "i:1", "i:2", "op:&&", "op:&&", "op:&&", "op:<", "op:<", "op:<"] := by decide
+    Gen.funcFacts.lookup "shape.middleSpatialIds" = some ["f:4602678819172646912", "i:0", "i:1", "i:2", "op:&&", "op:&&", "op:&&", "op:<", "op:<", "op:<"] := by decide
 
 /-- the six thresholds of shape/line.go are the binary64 values the model uses -/
 theorem line_thresholds :
